@@ -599,8 +599,19 @@ func signature(p prog, kind string) (string, prog) {
 		sigMemo[key] = class
 		return class, p
 	}
+	if class == "go-panic" {
+		for i, st := range p.body {
+			if st.op == 'S' && st.unh && i < len(p.body)-1 {
+				// the statement compiles to SET_LOCAL without DUP followed by the statement separator's POP: the
+				// symptom (which Go panic, where) depends on what the extra POP removes
+				s := "go-panic after an `unhygienic` assignment statement that is not the last statement of the expansion"
+				sigMemo[key] = s
+				return s, p
+			}
+		}
+	}
 	try := func(q prog) bool {
-		if model(q, false).ambiguous != "" {
+		if class != "go-panic" && model(q, false).ambiguous != "" {
 			return false
 		}
 		return classOf(judge(q, runSrc(macroProgram(q)))) == class
